@@ -316,6 +316,88 @@ def simRankOK (T : Tables) (rank : Int → Nat) (n : Nat) : Bool :=
     | some st' => decide (rank st' < rank (k : Int))
     | none => true
 
+/-! ## C09: the consumed symbols are the input with stretches replaced by `@error` -/
+
+mutual
+/-- The `Token`/`Error` leaves of a value, left to right. -/
+def leaves : Val → List Val
+  | .nil => []
+  | .tok i ty => [.tok i ty]
+  | .err i ty ex => [.err i ty ex]
+  | .node _ kids => leavesL kids
+def leavesL : List Val → List Val
+  | [] => []
+  | v :: vs => leaves v ++ leavesL vs
+end
+
+/-- Index (in the input) of the token a leaf carries. -/
+def lidx : Val → Nat
+  | .tok i _ => i
+  | .err i _ _ => i
+  | _ => 0
+
+/-- The terminal the parser sees in a leaf: the token type, or ERROR for an `Error`. -/
+def leafTy : Val → Int
+  | .tok _ ty => ty
+  | .err _ _ _ => tERROR
+  | _ => -1
+
+/-- The token carried by a leaf is the `i`-th token the lexer returns: `inp[i]`, or EOF at
+`i = |inp|`. -/
+def TokOK (inp : Array Nat) : Val → Prop
+  | .tok i ty => inp[i]? = some ty ∨ (i = inp.size ∧ ty = 0)
+  | .err i ty _ => inp[i]? = some ty ∨ (i = inp.size ∧ ty = 0)
+  | _ => True
+
+/-- Two consecutive consumed symbols `x y`: token indices never decrease; a `Token` is strictly
+before its successor; two consecutive `Token`s are adjacent in the input. (So an input token can
+only be missing next to an `Error`: it belongs to the stretch that `Error` replaces.) -/
+def LinkR (x y : Val) : Prop :=
+  lidx x ≤ lidx y ∧ (x.isErr = false → lidx x < lidx y) ∧
+    (x.isErr = false → y.isErr = false → lidx y = lidx x + 1)
+
+/-- Every two consecutive elements are `LinkR`-related. -/
+def Chain : List Val → Prop
+  | [] => True
+  | [_] => True
+  | x :: y :: r => LinkR x y ∧ Chain (y :: r)
+
+/-- Leaves of the stack, bottom to top: the symbols consumed so far. -/
+def stackLeaves (st : List Entry) : List Val := leavesL (st.reverse.map (·.sym))
+
+/-- The lookahead and the queued lookahead (when pending). -/
+def pending (s : PState) : List Val := s.lasym :: (if s.qla ≠ -1 then [s.qlasym] else [])
+
+/-- The last symbol obtained from the lexer side. -/
+def lastRead (s : PState) : Val := if s.qla ≠ -1 then s.qlasym else s.lasym
+
+/-- The lexer position is just after the last symbol read (EOF is re-read forever). -/
+def PosOK (inp : Array Nat) (s : PState) : Prop :=
+  (lidx (lastRead s) < inp.size ∧ s.pos = lidx (lastRead s) + 1) ∨
+  (lidx (lastRead s) = inp.size ∧ s.pos = inp.size)
+
+/-- `y` is the symbol the lexer returns right after `x` (EOF is returned again after EOF). -/
+def AdvR (inp : Array Nat) (x y : Val) : Prop :=
+  lidx y = lidx x + 1 ∨ (lidx x = inp.size ∧ lidx y = inp.size)
+
+/-- Invariant of the lookahead part of the state. -/
+structure PInv (inp : Array Nat) (s : PState) : Prop where
+  laok : LaOK s
+  laty : s.la = leafTy s.lasym
+  qty : s.qla ≠ -1 → s.qla = leafTy s.qlasym ∧ s.la = tERROR ∧ s.lasym.isErr = true ∧
+          lidx s.lasym ≤ lidx s.qlasym
+  tokLa : TokOK inp s.lasym
+  tokQ : s.qla ≠ -1 → TokOK inp s.qlasym
+  pos : PosOK inp s
+
+/-- **Coverage invariant.** The consumed symbols followed by the pending lookaheads form a chain
+that starts at token 0, consists of input tokens, and ends where the lexer stands. -/
+structure Cov (inp : Array Nat) (s : PState) : Prop where
+  pinv : PInv inp s
+  chain : Chain (stackLeaves s.stack ++ pending s)
+  head : ∀ x, (stackLeaves s.stack ++ pending s).head? = some x → x.isErr = false → lidx x = 0
+  tok : ∀ x ∈ stackLeaves s.stack, TokOK inp x
+
 /-! ## Checkers for the table-level hypotheses of C09 -/
 
 /-- `P key value` holds for every pair the scan loop of `_Find` can return from. Mirrors
